@@ -220,6 +220,19 @@ def run(c, facts, tier):
         cut_ok = all(x["cut"] for x in fr_c[: lastkept + 1])
         c.ob("C18.cut", a.site, a.lit, cut_ok, "blank and argument after %r are under cut_err: the error keeps its labels instead of being reset by the enclosing alt" % a.lit if cut_ok else "argument of %r is not under cut_err: on a bad argument alt() backtracks, the labels are lost and the word is reported as an unknown token" % a.lit, nontrivial=False)
     c.floor("argument-taking keywords", narg, 40)
+    # an unknown word is quoted whole because the error that surfaces is the one raised at the START of the word: winnow's
+    # alt() reports the error of its LAST alternative when all fail, so the last alternative of token() must be the one that
+    # fails on the spot without consuming anything (the `fail` fallback).  An alternative that gets part of the way into the
+    # word (`nope` of `nopex`, then the boundary guard) leaves the position in the middle of it.
+    from .. import args as _A
+
+    tb = _A.single_body(b.fn_ir(tokfn))
+    talts = [x for x in (_A.flat_alts(tb) if tb is not None else [])]
+    last = _A.unwrap(talts[-1]) if talts else None
+    while last is not None and last["t"] in ("ctx", "cut", "map", "value"):
+        last = _A.unwrap(last["p"])
+    last_ok = last is not None and last["t"] == "fail"
+    c.ob("C18.position", tokfn, "the unknown-word fallback is the last alternative of the token parser", last_ok, "last of %d alternatives of %s: %s — alt() surfaces the error of its last alternative; only one that fails at the start of the word leaves the whole word to be quoted" % (len(talts), tokfn, peg.show(talts[-1])[:60] if talts else None), witness="nopex  → quoted as `x`" if not last_ok else None)
     # C18.position: a hard error inside an argument leaves the input at the start of the offending word
     npos = 0
     for a in alts:
